@@ -32,6 +32,11 @@ func (tc *Config) init() {
 func (prog *Progress) init() {
 	if prog.Cfg == nil {
 		prog.Cfg = &Config{}
+	} else if prog.Cfg.Ctx == nil || prog.Cfg.LinkTargetNodePrototypeChooser == nil {
+		// Fill in the defaults on a copy: the caller's Config may be shared by concurrent traversals,
+		// and must not be written to.
+		cfg := *prog.Cfg
+		prog.Cfg = &cfg
 	}
 	prog.Cfg.init()
 	if prog.Cfg.LinkVisitOnlyOnce {
